@@ -3,6 +3,9 @@
 (* Relational level (what any correct result must satisfy; used to judge the real code) and     *)
 (* constructive level (one way to produce such a result: stable sort by the keys under the      *)
 (* documented comparison, then runs of equal keys), compared with each other by MC_Regroup.     *)
+(* Nothing here depends on what the columns are called: names, the name of the sub-table column  *)
+(* and the rendering of y values as column labels (LabelEnc / RenderVal) are data of the case;   *)
+(* MC_RegroupN enumerates them (names and labels that contain each other, labels of other types). *)
 EXTENDS Join, Order
 
 \* ---- key classes ------------------------------------------------------------------------------
